@@ -4,7 +4,9 @@ package main
 
 import (
 	"fmt"
+	"go/ast"
 	"go/constant"
+	"go/token"
 	"go/types"
 	"strings"
 
@@ -524,6 +526,53 @@ func init() {
 				e.setComp(h, name, fmt.Sprintf("(store %s %s %s)", arr, sv.B, na))
 			}
 			e.sortFacts = append(e.sortFacts, sortFact{perm: perm, inv: inv, slice: sv, stable: stable, less: args[1], elem: st.Elem()})
+			// ordered by the comparator: when the closure's contract says `ensures result == E(i, j)` (proved for the closure
+			// itself), the sorted range satisfies: no later element is less than an earlier one; a stable sort keeps the
+			// original order of elements neither of which is less than the other.
+			if cv, ok := args[1].(ClosV); ok && cv.Fn != nil {
+				less := cv.Fn.(*ssa.Function)
+				if con := e.w.contractFor(less); con != nil && len(less.Params) == 2 {
+					var body ast.Expr
+					for _, en := range con.Ensures {
+						if be, ok := en.Expr.(*ast.BinaryExpr); ok && be.Op == token.EQL {
+							if id, ok := be.X.(*ast.Ident); ok && (id.Name == "result" || id.Name == "r0") {
+								body = be.Y
+							}
+						}
+					}
+					if body != nil {
+						e.n++
+						bi, bj := q(fmt.Sprintf("si?%d", e.n)), q(fmt.Sprintf("sj?%d", e.n))
+						mk := func(a, b string) *Env {
+							env := &Env{vars: map[string]TV{}, cells: map[string]bool{}, heap: h, old: h}
+							if less.Pkg != nil {
+								env.pkg = less.Pkg.Pkg
+							} else if less.Parent() != nil && less.Parent().Pkg != nil {
+								env.pkg = less.Parent().Pkg.Pkg
+							}
+							env.vars[less.Params[0].Name()] = TV{Sc{a}, tInt}
+							env.vars[less.Params[1].Name()] = TV{Sc{b}, tInt}
+							for k, fv := range less.FreeVars {
+								if k < len(cv.Binds) {
+									env.vars[fv.Name()] = TV{cv.Binds[k], fv.Type()}
+									if _, isP := fv.Type().(*types.Pointer); isP {
+										env.cells[fv.Name()] = true
+									}
+								}
+							}
+							return env
+						}
+						lessJI := e.evalBool(mk(bj, bi), body)
+						lessIJ := e.evalBool(mk(bi, bj), body)
+						rng := fmt.Sprintf("(and (<= 0 %s) (< %s %s) (< %s %s))", bi, bi, bj, bj, sv.L)
+						e.assume(fmt.Sprintf("(forall ((%s Int) (%s Int)) (=> %s (not %s)))", bi, bj, rng, lessJI))
+						if stable {
+							e.assume(fmt.Sprintf("(forall ((%s Int) (%s Int)) (=> (and %s (not %s)) (< (%s %s) (%s %s))))", bi, bj, rng, lessIJ, perm, bi, perm, bj))
+						}
+						e.trusted["sorted-by-comparator (sort.Slice/SliceStable order the range by the verified comparator)"]++
+					}
+				}
+			}
 			return true
 		}
 	}
